@@ -111,3 +111,72 @@ class TensorDataset(KDDataset):
 def identity_collate(batch):
     """no collation: the delivered batch is the list of samples (contexts may have optional keys)"""
     return list(batch)
+
+
+class RootDataset(KDDataset):
+    """general purpose root: kind 'tensor' (x = (3,16,16) float), 'pil' (x = 32x32 RGB image), 'semseg' (tensor x + label map),
+    'dup' (every sample has the same x: isolates the random stream from the data).  Fresh objects on every access
+    (several wrappers mutate in place).  y/source/target items mirror x for the generic transform wrappers.
+    `clobber` maps an access number (per process copy) to (which, seed): foreign code reseeding a global RNG (fault F8)."""
+
+    def __init__(self, kind, size, n_classes=3, clobber=None, **kw):
+        super().__init__(**kw)
+        self.kind = kind
+        self.size = size
+        self.n_classes = n_classes
+        self.clobber = dict(clobber or {})
+        self.accesses = 0
+
+    def __len__(self):
+        return self.size
+
+    def _foreign_code(self):
+        import random
+        import numpy as np
+        c = self.clobber.get(self.accesses)
+        self.accesses += 1
+        if c is not None:
+            which, seed = c
+            if which == "py":
+                random.seed(seed)
+            elif which == "np":
+                np.random.seed(seed)
+            elif which == "torch":
+                torch.manual_seed(seed)
+            else:
+                random.random()
+                np.random.rand(2)
+                torch.rand(2)
+
+    def getitem_x(self, idx, ctx=None):
+        import numpy as np
+        self._foreign_code()
+        idx = int(idx)
+        assert 0 <= idx < self.size, f"index {idx} out of range({self.size})"
+        k = 0 if self.kind == "dup" else idx
+        if self.kind == "pil":
+            from PIL import Image
+            a = ((np.arange(32 * 32 * 3).reshape(32, 32, 3) * (k + 2)) % 251).astype(np.uint8)
+            return Image.fromarray(a)
+        return ((torch.arange(3 * 16 * 16).float().view(3, 16, 16) * (k + 2)) % 23) / 23
+
+    def getitem_y(self, idx, ctx=None):
+        return self.getitem_x(idx, ctx)
+
+    def getitem_source(self, idx, ctx=None):
+        return self.getitem_x(idx, ctx)
+
+    def getitem_target(self, idx, ctx=None):
+        return self.getitem_x(idx, ctx)
+
+    def getitem_semseg(self, idx, ctx=None):
+        return (torch.arange(16 * 16).view(16, 16) + int(idx)) % 5
+
+    def getitem_class(self, idx, ctx=None):
+        return (int(idx) * 7 + 1) % self.n_classes
+
+    def getshape_class(self):
+        return (self.n_classes,)
+
+    def getall_class(self):
+        return [self.getitem_class(i) for i in range(self.size)]
